@@ -165,10 +165,12 @@ def generate(ctx):
         other_rows = gen.gen_rows(rng, [("q", "int64")], n, max_len=2)
         nf["other"] = pd.Series(type(arr)(pa.array(other_rows, type=gen.struct_type([("q", "int64")]))), index=labels, name="other")
         rows = fo.rows_rm(inp["ca"])
+        # (.nest.query_flat is NOT part of this property: the accessor knows rows only by label, re-packs by label with
+        # pack_sorted_df_into_struct and therefore needs sorted, distinct labels; it is exercised only in that domain)
         kind = ["nested"] * 6 + ["base", "base", "mixed", "query_flat"]
         kind = kind[i % len(kind)]
-        if kind == "query_flat" and len(set(labels)) != len(labels):
-            kind = "nested"      # the accessor knows rows only by label: query_flat re-packs by label (outside this property)
+        if kind == "query_flat" and (len(set(labels)) != len(labels) or list(labels) != sorted(labels)):
+            kind = "nested"      # query_flat re-packs by label: sorted, distinct labels only (outside this property otherwise)
         fields = list(zip(names, [t for _, t in schema]))
         quote = rng.choice(["none", "none", "field", "both"])
         inplace = rng.random() < 0.3
